@@ -42,6 +42,10 @@ def short(x, n=400):
     return s if len(s) <= n else s[:n] + '…(%d chars)' % len(s)
 
 
+# divisions by the grid geometry of the (crate-private, unused) kNN grid: width / max_cell_width and width / cdim, positive by the constructor's contract
+REMOVABLE_OK = {'space::Space::new', 'space::Space::add_parts'}
+
+
 class Ctx:
     def __init__(self, prop, tier, seed):
         self.prop = prop
@@ -137,6 +141,23 @@ class Ctx:
         except (ValueError, AttributeError):
             old = None
         try:
+            from . import nf as _nf
+            if not _nf.DIV_TRACK:
+                # the rules compare normal forms, which cancel common factors: a division whose divisor cancels out of the result is invisible
+                # to them and undefined where the divisor vanishes (`(|x-c| / r) * r` for a sphere of radius 0) — interp.removable_divisions
+                _nf.DIV_TRACK, _nf.DIV_REPORTS = True, []
+                try:
+                    return fn()
+                finally:
+                    _nf.DIV_TRACK = False
+                    rep = [(p_, n_, rem) for p_, n_, rem in _nf.DIV_REPORTS if p_.split('<')[0] not in REMOVABLE_OK]
+                    bad = sorted({'%s: / %s' % (p_.rsplit('::', 1)[-1], d_) for p_, _n, rem in rep for d_ in rem})
+                    ndiv = sum(n_ for _p, n_, _r in rep)
+                    if bad:
+                        self.bad(rule, 'no-removable-singularity:' + instance, bad[:3], 'no division by a quantity that cancels out of the result', where, key_extra='removable')
+                    elif ndiv:
+                        self.ok(rule, 'no-removable-singularity:' + instance, '%d evaluation(s), %d division(s): every divisor survives in a denominator of the result or is tested' % (len(rep), ndiv),
+                                'no division by a quantity that cancels out of the result', where)
             return fn()
         except _Timeout:
             self.incomplete(rule, instance, 'abstract evaluation exceeded its time budget of %d s (normal-form blow-up)' % budget, where)
